@@ -337,7 +337,10 @@ PropMsg(e, out, h0, cap) ==
             ELSE acked
       o0 == IF obs[k].offer # NoA /\ (obs[k].omac # e.m \/ obs[k].ocap # cap)
             THEN [obs[k] EXCEPT !.offer = NoA, !.xid = NoX, !.old = FALSE, !.void = FALSE] ELSE obs[k]
-      o1 == IF gone \/ (obs[k].dmac # NoMac /\ (obs[k].dmac # e.m \/ obs[k].dcap # cap))      \* the server re-creates the lease
+      \* a REQUEST that names no address is dropped by the server unseen: the largest readings stay as they are
+      void0 == e.kind = "request" /\ e.reff = NoA
+      o1 == IF void0 THEN obs[k]
+            ELSE IF gone \/ (obs[k].dmac # NoMac /\ (obs[k].dmac # e.m \/ obs[k].dcap # cap))      \* the server re-creates the lease
             THEN [o0 EXCEPT !.last = NoA, !.dur = NoA, !.dmac = NoMac] ELSE o0
       o1b == IF e.kind = "request" /\ e.sid = "other" THEN [o1 EXCEPT !.dur = NoA, !.dmac = NoMac] ELSE o1
       o2 == IF tous THEN [o1b EXCEPT !.void = TRUE, !.last = IF e.kind = "decline" /\ e.reff = @ THEN NoA ELSE @,
